@@ -163,6 +163,7 @@ func TestVerifC01(t *testing.T) {
 		t.Fatal(err)
 	}
 	rep := &simReport{}
+	simOnStall("c01_result.json", rep)
 	defer func() {
 		rep.Events = ndj.Count()
 		ndj.Close()
@@ -174,7 +175,7 @@ func TestVerifC01(t *testing.T) {
 	// ---- B1: the TLC scope
 	for ci, cs := range cases {
 		name := fmt.Sprintf("scope/layout%d", ci)
-		synctest.Test(t, func(t *testing.T) {
+		verifsim.Bubble(t, func(t *testing.T) {
 			w := &c01World{tr: &verifsim.Trace{}, out: ndj, rep: rep}
 			w.cl = verifsim.NewCluster(w.tr)
 			for _, h := range hosts {
@@ -248,7 +249,7 @@ func TestVerifC01(t *testing.T) {
 	}
 	for k := 0; k < nrand; k++ {
 		name := fmt.Sprintf("random/%d", k)
-		synctest.Test(t, func(t *testing.T) {
+		verifsim.Bubble(t, func(t *testing.T) {
 			w := &c01World{tr: &verifsim.Trace{}, out: ndj, rep: rep}
 			w.cl = verifsim.NewCluster(w.tr)
 			for _, h := range hosts {
